@@ -1,317 +1,4 @@
-/- GENERATED by harness/go2lean from the Go sources of pipelined.dev/signal - do not edit.
-   Regenerated by ./check on every run; the theorems of SignalGen/Eq/*.lean relate these definitions to the model. -/
-import SignalGen.Prelude
-set_option linter.unusedVariables false
-namespace Sig.Gen
-open Sig
-
-/-- Buffer.Capacity (pure shape) -/
-@[gen] def Buffer_Capacity (b : Buf) : Int :=
-  if ((b.ch : Int) = 0) then
-    (0)
-  else
-    ((tI64.wrap (goDiv (b.cap : Int) (b.ch : Int))))
-
-/-- BufferIndex (signal.go) -/
-@[gen] def channels_BufferIndex (p_c : Int) (p_channel : Int) (p_idx : Int) : Int :=
-  ((tI64.wrap ((tI64.wrap (p_c * p_idx)) + p_channel)))
-
-/-- Buffer.Slice (res shape) -/
-@[gen] def Buffer_Slice (h : Heap) (b : Buf) (p_start : Int) (p_end : Int) : Res (Buf × Buf) :=
-  if (((b.ch : Int) ≠ 0) ∧ (((p_start < 0) ∨ (p_start > p_end)) ∨ (p_end > (Sig.Gen.Buffer_Capacity b )))) then
-    Res.panic h Panic.sliceBounds
-  else
-    let v_start1 := (Sig.Gen.channels_BufferIndex (b.ch : Int) 0 p_start)
-    let v_end2 := (Sig.Gen.channels_BufferIndex (b.ch : Int) 0 p_end)
-    (Res.ofOption h Panic.sliceBounds (Buf.reslice b v_start1 v_end2)).bind fun _ v_d3 =>
-    Res.ok h (b, { v_d3 with ch := ((b.ch : Int)).toNat, depth := ((b.depth : Int)).toNat })
-
-/-- Buffer.AppendSample (res shape) -/
-@[gen] def Buffer_AppendSample (h : Heap) (b : Buf) (p_v : Int) : Res (Buf × Unit) :=
-  if ((b.len : Int) = (b.cap : Int)) then
-    Res.ok h (b, ())
-  else
-    (Res.ofUnspec (append1 h b p_v)).bind fun _ v_p1 =>
-    Res.ok v_p1.1 (v_p1.2, ())
-
-/-- Buffer.SetSample (res shape) -/
-@[gen] def Buffer_SetSample (h : Heap) (b : Buf) (p_i : Int) (p_v : Int) : Res (Buf × Unit) :=
-  (Res.ofOption h Panic.index (Buf.setSample h b p_i p_v)).bind fun _ v_h1 =>
-  Res.ok v_h1 (b, ())
-
-/-- Buffer.Length (option shape) -/
-@[gen] def Buffer_Length (b : Buf) : Option Int :=
-  if ((b.ch : Int) = 0) then
-    some (0)
-  else
-    (toIntTy tI64 (FV.ceil (FV.div f64 (FV.ofInt f64 (b.len : Int)) (FV.ofInt f64 (b.ch : Int))))).bind fun v_t1 =>
-    some (v_t1)
-
-/-- Channels (signal.go) -/
-@[gen] def channels_Channels (p_c : Int) : Int :=
-  (p_c)
-
-/-- Buffer.channelLength (option shape) -/
-@[gen] def Buffer_channelLength (b : Buf) (p_channel : Int) : Option Int :=
-  (Sig.Gen.Buffer_Length b ).bind fun v_r1 =>
-  let v_length2 := v_r1
-  let v_filled3 := (goMod (b.len : Int) (Sig.Gen.channels_Channels (b.ch : Int) ))
-  if ((v_filled3 ≠ 0) ∧ (p_channel ≥ v_filled3)) then
-    let v_length4 := (tI64.wrap (v_length2 - 1))
-    some (v_length4)
-  else
-    some (v_length2)
-
-/-- Buffer.Cap (pure shape) -/
-@[gen] def Buffer_Cap (b : Buf) : Int :=
-  ((b.cap : Int))
-
-/-- Buffer.Len (pure shape) -/
-@[gen] def Buffer_Len (b : Buf) : Int :=
-  ((b.len : Int))
-
-/-- Buffer.Sample (res shape) -/
-@[gen] def Buffer_Sample (h : Heap) (b : Buf) (p_i : Int) : Res (Buf × Int) :=
-  (Res.ofOption h Panic.index (Buf.sample h b p_i)).bind fun _ v_s1 =>
-  Res.ok h (b, v_s1)
-
-/-- Buffer.clear (res shape) -/
-@[gen] def Buffer_clear (h : Heap) (b : Buf) : Res (Buf × Unit) :=
-  let v_h1 := storeList h b.blk b.off (List.replicate b.len 0)
-  Res.ok v_h1 (b, ())
-
-/-- C.BufferIndex (pure shape) -/
-@[gen] def C_BufferIndex (b : Buf) (c_channel : Int) (p_channel : Int) (p_index : Int) : Int :=
-  ((Sig.Gen.channels_BufferIndex (b.ch : Int) c_channel p_index))
-
-/-- C.Channels (pure shape) -/
-@[gen] def C_Channels (b : Buf) (c_channel : Int) : Int :=
-  (1)
-
-/-- C.Capacity (pure shape) -/
-@[gen] def C_Capacity (b : Buf) (c_channel : Int) : Int :=
-  ((Sig.Gen.Buffer_Capacity b ))
-
-/-- C.Length (option shape) -/
-@[gen] def C_Length (b : Buf) (c_channel : Int) : Option Int :=
-  (Sig.Gen.Buffer_Length b ).bind fun v_r1 =>
-  some (v_r1)
-
-/-- C.Sample (res shape) -/
-@[gen] def C_Sample (h : Heap) (b : Buf) (c_channel : Int) (p_index : Int) : Res (Buf × Int) :=
-  (Sig.Gen.Buffer_Sample h b (Sig.Gen.channels_BufferIndex (b.ch : Int) c_channel p_index)).bind fun _ v_r1 =>
-  Res.ok h (b, v_r1.2)
-
-/-- C.SetSample (res shape) -/
-@[gen] def C_SetSample (h : Heap) (b : Buf) (c_channel : Int) (p_index : Int) (p_s : Int) : Res (Buf × Unit) :=
-  (Sig.Gen.Buffer_SetSample h b (Sig.Gen.channels_BufferIndex (b.ch : Int) c_channel p_index) p_s).bind fun v_h1 v_r2 =>
-  Res.ok v_h1 (v_r2.1, ())
-
-/-- PoolAllocator.Put (res shape) -/
-@[gen] def PoolAllocator_Put (h : Heap) (b : Buf) (a_ch a_len a_cap : Int) : Res (Buf × Unit) :=
-  if ((tI64.wrap (a_cap * a_ch)) ≠ (Sig.Gen.Buffer_Cap b )) then
-    Res.panic h Panic.diffCapacity
-  else
-    (Res.ofOption h Panic.sliceBounds (Buf.reslice b 0 (b.cap : Int))).bind fun _ v_d1 =>
-    (Sig.Gen.Buffer_clear h v_d1 ).bind fun v_h2 v_r3 =>
-    (Res.ofOption v_h2 Panic.sliceBounds (Buf.reslice v_r3.1 0 (tI64.wrap (a_ch * a_len)))).bind fun _ v_d4 =>
-    Res.ok v_h2 (v_d4, ())
-
-/-- MaxSignedValue (signal.go) -/
-@[gen] def BitDepth_MaxSignedValue (p_b : Int) : Int :=
-  if (p_b = 0) then
-    (0)
-  else
-    ((tI64.wrap ((shl tI64 1 (tU8.wrap (p_b - 1))) - 1)))
-
-/-- MaxUnsignedValue (signal.go) -/
-@[gen] def BitDepth_MaxUnsignedValue (p_b : Int) : Int :=
-  if (p_b = 0) then
-    (0)
-  else
-    ((tU64.wrap ((shl tU64 1 p_b) - 1)))
-
-/-- MinSignedValue (signal.go) -/
-@[gen] def BitDepth_MinSignedValue (p_b : Int) : Int :=
-  if (p_b = 0) then
-    (0)
-  else
-    ((shl tI64 (-1) (tU8.wrap (p_b - 1))))
-
-/-- UnsignedValue (signal.go) -/
-@[gen] def BitDepth_UnsignedValue (p_b : Int) (p_val : Int) : Int :=
-  let v_max1 := (Sig.Gen.BitDepth_MaxUnsignedValue p_b)
-  if (p_val > v_max1) then
-    (v_max1)
-  else
-    (p_val)
-
-/-- SignedValue (signal.go) -/
-@[gen] def BitDepth_SignedValue (p_b : Int) (p_val : Int) : Int :=
-  let v_max1 := (Sig.Gen.BitDepth_MaxSignedValue p_b)
-  let v_min2 := (Sig.Gen.BitDepth_MinSignedValue p_b)
-  if (p_val < v_min2) then
-    (v_min2)
-  else
-    if (p_val > v_max1) then
-      (v_max1)
-    else
-      (p_val)
-
-/-- Scale (signal.go) -/
-@[gen] def Scale (TT : IntTy) (p_high : Int) (p_low : Int) : Int :=
-  ((shl TT 1 (tU8.wrap (p_high - p_low))))
-
-/-- Duration (signal.go) -/
-@[gen] def Frequency_Duration (p_f : FV) (p_events : Int) : Option Int :=
-  (toIntTy tI64 (FV.roundHalfAway (FV.mul f64 (FV.div f64 (FV.fin (1000000000)) p_f) (FV.ofInt f64 p_events)))).bind fun v_t1 =>
-  some (v_t1)
-
-/-- Events (signal.go) -/
-@[gen] def Frequency_Events (p_f : FV) (p_d : Int) : Option Int :=
-  (toIntTy tI64 (FV.roundHalfAway (FV.mul f64 (FV.div f64 p_f (FV.fin (1000000000))) (FV.ofInt f64 p_d)))).bind fun v_t1 =>
-  some (v_t1)
-
-/-- BitDepth (signal.go) -/
-@[gen] def bitDepth_BitDepth (p_bd : Int) : Int :=
-  (p_bd)
-
-/-- min (signal.go) -/
-@[gen] def min (p_v1 : Int) (p_v2 : Int) : Int :=
-  if (p_v1 < p_v2) then
-    (p_v1)
-  else
-    (p_v2)
-
-/-- ChannelLength (signal.go) -/
-@[gen] def ChannelLength (p_sliceLen : Int) (p_channels : Int) : Option Int :=
-  if (p_channels = 0) then
-    some (0)
-  else
-    (toIntTy tI64 (FV.ceil (FV.div f64 (FV.ofInt f64 p_sliceLen) (FV.ofInt f64 p_channels)))).bind fun v_t1 =>
-    some (v_t1)
-
-/-- per-sample kernel of FloatAsFloat (signal.go), with its loop-invariant prologue -/
-@[gen] def FloatAsFloat_k (TS : Fmt) (TD : Fmt) (sb db : Nat) (x : FV) : Option FV :=
-  some ((FV.conv TD x))
-
-/-- per-sample kernel of FloatAsSigned (signal.go), with its loop-invariant prologue -/
-@[gen] def FloatAsSigned_k (TS : Fmt) (TD : IntTy) (sb db : Nat) (x : FV) : Option Int :=
-  let v_msv1 := (TD.wrap (Sig.Gen.BitDepth_MaxSignedValue (db : Int)))
-  let v_sample2 : Int := 0
-  let v_f3 := (FV.conv f64 x)
-  if (FV.lt (FV.fin (0)) v_f3 = true) then
-    if (FV.lt v_f3 (FV.fin (1)) = true) then
-      (toIntTy TD (FV.mul f64 v_f3 (FV.ofInt f64 v_msv1))).bind fun v_t4 =>
-      let v_sample5 := v_t4
-      some (v_sample5)
-    else
-      let v_sample6 := v_msv1
-      some (v_sample6)
-  else
-    if (FV.lt (FV.fin (-1)) v_f3 = true) then
-      (toIntTy TD (FV.mul f64 v_f3 (FV.add f64 (FV.ofInt f64 v_msv1) (FV.fin (1))))).bind fun v_t7 =>
-      let v_sample8 := v_t7
-      some (v_sample8)
-    else
-      let v_sample9 := (TD.wrap ((TD.wrap (-v_msv1)) - 1))
-      some (v_sample9)
-
-/-- per-sample kernel of FloatAsUnsigned (signal.go), with its loop-invariant prologue -/
-@[gen] def FloatAsUnsigned_k (TS : Fmt) (TD : IntTy) (sb db : Nat) (x : FV) : Option Int :=
-  let v_msv1 := (TD.wrap (Sig.Gen.BitDepth_MaxSignedValue (db : Int)))
-  let v_offset2 := (TD.wrap (v_msv1 + 1))
-  let v_sample3 : Int := 0
-  let v_f4 := (FV.conv f64 x)
-  if (FV.lt (FV.fin (0)) v_f4 = true) then
-    if (FV.lt v_f4 (FV.fin (1)) = true) then
-      (toIntTy TD (FV.mul f64 v_f4 (FV.ofInt f64 v_msv1))).bind fun v_t5 =>
-      let v_sample6 := (TD.wrap (v_t5 + v_offset2))
-      some (v_sample6)
-    else
-      let v_sample7 := (TD.wrap (v_msv1 + v_offset2))
-      some (v_sample7)
-  else
-    if (FV.lt (FV.fin (-1)) v_f4 = true) then
-      (toIntTy TD (FV.mul f64 (FV.neg v_f4) (FV.add f64 (FV.ofInt f64 v_msv1) (FV.fin (1))))).bind fun v_t8 =>
-      let v_sample9 := (TD.wrap (v_offset2 - v_t8))
-      some (v_sample9)
-    else
-      let v_sample10 := 0
-      some (v_sample10)
-
-/-- per-sample kernel of SignedAsFloat (signal.go), with its loop-invariant prologue -/
-@[gen] def SignedAsFloat_k (TS : IntTy) (TD : Fmt) (sb db : Nat) (x : Int) : Option FV :=
-  let v_msv1 := (FV.ofInt TD (Sig.Gen.BitDepth_MaxSignedValue (sb : Int)))
-  let v_sample2 := x
-  if (v_sample2 > 0) then
-    some ((FV.div TD (FV.ofInt TD v_sample2) v_msv1))
-  else
-    some ((FV.div TD (FV.ofInt TD v_sample2) (FV.add TD v_msv1 (FV.fin (1)))))
-
-/-- per-sample kernel of SignedAsSigned (signal.go), with its loop-invariant prologue -/
-@[gen] def SignedAsSigned_k (TS : IntTy) (TD : IntTy) (sb db : Nat) (x : Int) : Option Int :=
-  if ((sb : Int) ≥ (db : Int)) then
-    let v_scale1 := (Sig.Gen.Scale TS (sb : Int) (db : Int))
-    some ((TD.wrap (TS.wrap (goDiv x v_scale1))))
-  else
-    let v_scale2 := (Sig.Gen.Scale TD (db : Int) (sb : Int))
-    let v_sample3 := x
-    if (v_sample3 > 0) then
-      some ((TD.wrap ((TD.wrap ((TD.wrap ((TD.wrap x) + 1)) * v_scale2)) - 1)))
-    else
-      some ((TD.wrap ((TD.wrap x) * v_scale2)))
-
-/-- per-sample kernel of SignedAsUnsigned (signal.go), with its loop-invariant prologue -/
-@[gen] def SignedAsUnsigned_k (TS : IntTy) (TD : IntTy) (sb db : Nat) (x : Int) : Option Int :=
-  let v_msv1 := (TD.wrap (Sig.Gen.BitDepth_MaxSignedValue (db : Int)))
-  if ((sb : Int) ≥ (db : Int)) then
-    let v_scale2 := (Sig.Gen.Scale TS (sb : Int) (db : Int))
-    some ((TD.wrap ((TD.wrap ((TD.wrap (TS.wrap (goDiv x v_scale2))) + v_msv1)) + 1)))
-  else
-    let v_scale3 := (Sig.Gen.Scale TD (db : Int) (sb : Int))
-    let v_sample4 := x
-    if (v_sample4 > 0) then
-      some ((TD.wrap ((TD.wrap ((TD.wrap (TS.wrap (x + 1))) * v_scale3)) + v_msv1)))
-    else
-      some ((TD.wrap ((TD.wrap ((TD.wrap ((TD.wrap x) * v_scale3)) + v_msv1)) + 1)))
-
-/-- per-sample kernel of UnsignedAsFloat (signal.go), with its loop-invariant prologue -/
-@[gen] def UnsignedAsFloat_k (TS : IntTy) (TD : Fmt) (sb db : Nat) (x : Int) : Option FV :=
-  let v_msv1 := (FV.ofInt TD (Sig.Gen.BitDepth_MaxSignedValue (sb : Int)))
-  let v_sample2 := x
-  if (v_sample2 > 0) then
-    some ((FV.div TD (FV.sub TD (FV.ofInt TD v_sample2) (FV.add TD v_msv1 (FV.fin (1)))) v_msv1))
-  else
-    some ((FV.div TD (FV.sub TD (FV.ofInt TD v_sample2) (FV.add TD v_msv1 (FV.fin (1)))) (FV.add TD v_msv1 (FV.fin (1)))))
-
-/-- per-sample kernel of UnsignedAsSigned (signal.go), with its loop-invariant prologue -/
-@[gen] def UnsignedAsSigned_k (TS : IntTy) (TD : IntTy) (sb db : Nat) (x : Int) : Option Int :=
-  let v_msv1 := (Sig.Gen.BitDepth_MaxSignedValue (sb : Int))
-  if ((sb : Int) ≥ (db : Int)) then
-    let v_scale2 := (Sig.Gen.Scale TS (sb : Int) (db : Int))
-    some ((TD.wrap (TS.wrap (goDiv (TS.wrap (x - (TS.wrap (tI64.wrap (v_msv1 + 1))))) v_scale2))))
-  else
-    let v_scale3 := (Sig.Gen.Scale TD (db : Int) (sb : Int))
-    let v_sample4 := (TD.wrap ((TD.wrap x) - (TD.wrap (tI64.wrap (v_msv1 + 1)))))
-    if (v_sample4 > 0) then
-      some ((TD.wrap ((TD.wrap ((TD.wrap (v_sample4 + 1)) * v_scale3)) - 1)))
-    else
-      some ((TD.wrap (v_sample4 * v_scale3)))
-
-/-- per-sample kernel of UnsignedAsUnsigned (signal.go), with its loop-invariant prologue -/
-@[gen] def UnsignedAsUnsigned_k (TS : IntTy) (TD : IntTy) (sb db : Nat) (x : Int) : Option Int :=
-  if ((sb : Int) ≥ (db : Int)) then
-    let v_scale1 := (Sig.Gen.Scale TS (sb : Int) (db : Int))
-    some ((TD.wrap (TS.wrap (goDiv x v_scale1))))
-  else
-    let v_scale2 := (Sig.Gen.Scale TD (db : Int) (sb : Int))
-    let v_msv3 := (TS.wrap (Sig.Gen.BitDepth_MaxSignedValue (sb : Int)))
-    let v_sample4 : Int := 0
-    let v_sample5 := x
-    if (v_sample5 > (TS.wrap (v_msv3 + 1))) then
-      some ((TD.wrap ((TD.wrap ((TD.wrap (TS.wrap (v_sample5 + 1))) * v_scale2)) - 1)))
-    else
-      some ((TD.wrap ((TD.wrap v_sample5) * v_scale2)))
-
-end Sig.Gen
+/- all regenerated definitions (see SignalGen/Gen/*.lean, written by harness/go2lean) -/
+import SignalGen.Gen.Scalar
+import SignalGen.Gen.Kernels
+import SignalGen.Gen.Buffer
